@@ -328,6 +328,18 @@ theorem insertion_stores_a_bijection {s s' : Snap} {n syn : Node} {f2o : SlotMap
     subst he
     exact Node.weakShape_bij_ok n1
 
+/-- … and its keys are exactly the free slots of the stored shape (`C16.weakShape_bijection_keys`), whenever that held before -/
+theorem insertion_stores_keys_of_shape {s s' : Snap} {n syn : Node} {f2o : SlotMap} {data : String} {a : AppId}
+    (hok : Snap.AddOK s) (hb : ∀ c ∈ s.classes, ∀ e ∈ c.nodes, SlotMap.keys e.2 = Node.slots e.1)
+    (h : Snap.addNew s n f2o syn data = some (s', a)) :
+    ∀ c ∈ s'.classes, ∀ e ∈ c.nodes, SlotMap.keys e.2 = Node.slots e.1 := by
+  intro c hc e he
+  rcases Snap.add_nodes hok h hc with hold | ⟨n1, hn, _⟩
+  · exact hb c hold e he
+  · rw [hn, List.mem_singleton] at he
+    subst he
+    exact SV.Node.C16.weakShape_bijection_keys n1
+
 /-- **for every sequence of modelled insertions**: the union-find half, the leader entries and groups of all classes and the uniqueness of
 stored shapes hold at the end whenever they held at the start, and every class from the start is still a class at the end with its whole
 per-class conjunct of `checkInv` -/
